@@ -114,7 +114,7 @@ theorem empty_raises {α : Type} [Scalar α] {τ : Type} (replace : Bool) (pos k
   · simp [getSampleW, sampleWRepl]
 
 /-- … and only emptiness: on a non-empty vector no admissible draw raises -/
-theorem nonempty_no_raise {τ : Type} (v : List τ) (hv : v ≠ []) (replace : Bool) (pos : Nat) (hpos : pos < v.length) :
+theorem nonempty_no_raise {τ : Type} (v : List τ) (replace : Bool) (pos : Nat) (hpos : pos < v.length) :
     (∃ r, pickOne v replace pos = .ok r) ∧ (∃ r, pickOneConst v pos = .ok r) := by
   obtain ⟨e, _, hp⟩ := pickOne_ok replace hpos
   exact ⟨⟨_, hp⟩, ⟨_, pickOneConst_ok hpos⟩⟩
@@ -453,6 +453,18 @@ theorem wrapper_table_complete :
       "randBeta/2", "randExponential/1"].all (fun n => Generated.wrappers.any (fun w => w.name == n)) = true ∧
     ["Beta", "Exponential", "Gamma", "Gaussian", "TruncatedExponential"].all
       (fun d => Generated.randCs.any (fun r => r.dist == d)) = true := by decide
+
+/-- which end of each interval is closed is decided by one comparison operator in the source; hitting
+such an end point has probability about `2^-53` per draw, so no execution ties it.  The operators
+are therefore regenerated from the sources on every run and must be the ones the model transcribes:
+`prob < sumw[i]` (`searchLt`), `prob <= w[pos]` / `r <= cumprob` (`searchLe`, `invCdf`, `dRandFrom`),
+`prob < 0` (`subtractSearch`), `stat_rep >= statistic_` (`countGe`), `vout.size() > vin.size()`. -/
+theorem source_comparisons :
+    Generated.comparisons =
+      [("pickOne(v,w,replace)", "<"), ("pickOne(const v,const w)", "<"), ("pickFromCumSum", "<="),
+       ("pickFromCumSum.loop", "<"), ("getSample.tooLong", ">"), ("getSampleW.tooLong", ">"),
+       ("randMultinomial", "<="), ("AbstractDiscreteDistribution::rand", "<="), ("hmm.first", "<"),
+       ("hmm.next", "<"), ("ContingencyTableTest.count", ">=")] := by decide
 
 /-- the unrepaired sources (before `fix:` 54d504f, 5746c3e, 985f4b7): `randExponential(mean)` passed
 the mean as the rate, `randGamma(alpha, beta)` the rate as the scale, and
